@@ -18,23 +18,23 @@ import (
 )
 
 func (c *ChoquetIntegralPreferenceFunc) Spec_ParseParams(dm *model.DecisionMaker) interface{} {
-	weights := model.ExtractWeights(dm)
-	parsedWeights := parse(&dm.Criteria, &weights)
+	weights := model.Spec_ExtractWeights(dm)
+	parsedWeights := Spec_parse(&dm.Criteria, &weights)
 	return choquetParams{weights: parsedWeights, criteria: &dm.Criteria}
 }
 
 func Spec_parse(criteria *model.Criteria, weights *model.Weights) *model.Weights {
-	validateAllCriteriaAreGain(criteria)
-	newWeights := remapWeights(weights)
-	validateAllWeightsAvailable(newWeights, criteria)
-	return prepareWeights(newWeights, criteria)
+	Spec_validateAllCriteriaAreGain(criteria)
+	newWeights := Spec_remapWeights(weights)
+	Spec_validateAllWeightsAvailable(newWeights, criteria)
+	return Spec_prepareWeights(newWeights, criteria)
 }
 
 func Spec_remapWeights(weights *model.Weights) *model.Weights {
 	result := make(model.Weights, len(*weights))
 	for k, v := range *weights {
-		criteria := containedCriteria(k)
-		validCriterionKey := criterionKey(&criteria)
+		criteria := Spec_containedCriteria(k)
+		validCriterionKey := Spec_criterionKey(&criteria)
 		if _, ok := result[validCriterionKey]; ok {
 			if len(criteria) == 1 {
 				panic(fmt.Errorf("value for criterion %v is redeclared", validCriterionKey))
@@ -56,11 +56,11 @@ func Spec_validateAllCriteriaAreGain(criteria *model.Criteria) {
 }
 
 func Spec_validateAllWeightsAvailable(weights *model.Weights, criteria *model.Criteria) {
-	criteriaNames := criteria.Names()
+	criteriaNames := criteria.Spec_Names()
 	// combinations are checked one by one, in PowerSet order: the first missing one is reported
 	// before more combinations than given weights were generated, whatever the number of criteria.
-	EachSubSet(*criteriaNames, func(rcc []string) {
-		getWeightForCriteriaUnion(&rcc, weights)
+	Spec_EachSubSet(*criteriaNames, func(rcc []string) {
+		Spec_getWeightForCriteriaUnion(&rcc, weights)
 	})
 }
 
@@ -71,13 +71,13 @@ func Spec_containedCriteria(key string) []string {
 func Spec_prepareWeights(weights *model.Weights, criteria *model.Criteria) *model.Weights {
 	resultWeights := make(model.Weights, len(*weights))
 	for k, v := range *weights {
-		splittedValues := containedCriteria(k)
-		identifiable := utils.ToIdentifiable(criteria)
-		if !utils.ContainsAll(identifiable, &splittedValues) {
+		splittedValues := Spec_containedCriteria(k)
+		identifiable := utils.Spec_ToIdentifiable(criteria)
+		if !utils.Spec_ContainsAll(identifiable, &splittedValues) {
 			panic(fmt.Errorf("%s: not all weights are present in criteria %s", k, *criteria))
 		}
-		validateWeightValue(&splittedValues, v)
-		resultWeights[criterionKey(&splittedValues)] = v
+		Spec_validateWeightValue(&splittedValues, v)
+		resultWeights[Spec_criterionKey(&splittedValues)] = v
 	}
 	return &resultWeights
 }
@@ -89,8 +89,8 @@ func Spec_validateWeightValue(criterionKey *[]string, v model.Weight) {
 }
 
 func Spec_getWeightForCriteriaUnion(commonWeightCriteria *[]string, weights *model.Weights) model.Weight {
-	weightKey := criterionKey(commonWeightCriteria)
-	criteriaUnionWeight := getWeightForCombinedCriterion(weights, &weightKey)
+	weightKey := Spec_criterionKey(commonWeightCriteria)
+	criteriaUnionWeight := Spec_getWeightForCombinedCriterion(weights, &weightKey)
 	return criteriaUnionWeight
 }
 
